@@ -44,6 +44,9 @@ var (
 type SortTable struct {
 	byName map[string]*Sort
 	order  []*Sort // declaration order for unint + data
+	// Resolve (optional) maps a name that is not a declared sort (Go type path, alias, []T, *T) to its sort,
+	// so that sort expressions such as (Array Str pkg/path.T) can mention Go types.
+	Resolve func(name string) *Sort
 }
 
 func NewSortTable() *SortTable {
@@ -118,6 +121,9 @@ func (st *SortTable) ParseSort(txt string) (*Sort, error) {
 			return nil, fmt.Errorf("sort: unsupported %q", txt)
 		}
 		s := st.byName[t]
+		if s == nil && st.Resolve != nil {
+			s = st.Resolve(t)
+		}
 		if s == nil {
 			return nil, fmt.Errorf("sort: unknown sort %q", t)
 		}
